@@ -33,6 +33,7 @@ from ..model import AnalysisError, AnchorMissing
 from ..x_sint import check_sint, int_sites
 from ..x_paths import path_states, satisfied, reachable_from
 from ..x_resolve import expand, resolve, unique_def
+from ..x_resolve import call_arg as _ca
 
 TECHNIQUE = "SINT (regex-language inclusion + exception-handler lookup) + must-pass-through/guard dominance and path-sensitive event-or-guard checks on the CFGs of the range/304 code"
 EXPLANATION = (
@@ -277,7 +278,9 @@ def rule_get(ck):
     require_after(ck, "C27.206", get, lambda nd: any(nd.id == n2.id for n2, _ in s206), _node_pred(cr206), "206 carries Content-Range from _get_content_range on every path")
     for nd, c in get.cfg.find(cr206):
         v = q.arg(c, 1, "value")
-        ck.ob("C27.206", get, c, [q.dotted(a) for a in v.args] == [start, end, size] and not v.keywords, "Content-Range is computed from (%s, %s, %s)" % (start, end, size))
+        gp_ = ck.func(HU, "_get_content_range").params()
+        got3 = [q.dotted(_ca(ck.repo, get, v, i_, gp_[i_])) if _ca(ck.repo, get, v, i_, gp_[i_]) is not None else None for i_ in range(3)]
+        ck.ob("C27.206", get, c, got3 == [start, end, size], "Content-Range is computed from (%s, %s, %s)" % (start, end, size))
         ck.ob("C27.206", get, c, any(("@s206" == "@s206") and nd.id in (reachable_from(get.cfg, n2) | {n2.id}) for n2, _ in s206), "a partial Content-Range is only sent together with status 206")
     for nd, c in s206:
         ck.ob("C27.206", get, c, holds(facts[nd.id], rr, True) or holds(facts[nd.id], "%s is None" % rr, False), "206 only for a syntactically valid Range")
@@ -289,8 +292,10 @@ def rule_get(ck):
     ncl = require_before(ck, "C27.content-length", get, _node_pred(lambda x: q.is_call(x, "self.write", "self.flush", "self.get_content")), _node_pred(lambda x: q.is_call(x, "self.set_header") and _hdr_is(x, "Content-Length")), "Content-Length is set on every path before the body is read/written")
     ck.floor("C27.content-length", ncl, 2, "body nodes")
     # the content is read with the same (start, end) the headers were computed from
+    gpar = [p_ for p_ in ck.func(WEB, SFH + ".get_content").params() if p_ not in ("self", "cls")]
     for nd, c in call_sites(get, "self.get_content"):
-        ck.ob("C27.content-length", get, c, [q.dotted(a) for a in c.args[1:3]] == [start, end], "get_content is asked for exactly the range (%s, %s) announced in the headers" % (start, end))
+        got_ = [q.dotted(_ca(ck.repo, get, c, i_, gpar[i_])) if _ca(ck.repo, get, c, i_, gpar[i_]) is not None else None for i_ in (1, 2)]
+        ck.ob("C27.content-length", get, c, got_ == [start, end], "get_content is asked for exactly the range (%s, %s) announced in the headers" % (start, end))
 
 
 def rule_content_range(ck):
@@ -331,7 +336,8 @@ def rule_get_content(ck):
         return n2.kind == "stmt" and isinstance(n2.ast, (ast.Assign, ast.AnnAssign)) and rem in q.assigned_paths(n2.ast) and n2.ast.value is not None and end in q.names_in(n2.ast.value)
 
     def clears_budget(n2):
-        return n2.kind == "stmt" and isinstance(n2.ast, (ast.Assign, ast.AnnAssign)) and rem in q.assigned_paths(n2.ast) and n2.ast.value is not None and not sets_budget(n2)
+        # a self-update (remaining = remaining - len(chunk)) keeps the budget in force
+        return n2.kind == "stmt" and isinstance(n2.ast, (ast.Assign, ast.AnnAssign)) and rem in q.assigned_paths(n2.ast) and n2.ast.value is not None and not sets_budget(n2) and rem not in q.names_in(n2.ast.value)
 
     stb = path_states(fi, ["%s is None" % end], {"budget": sets_budget}, kills={"budget": clears_budget}, follow_exc=False)
     for nd, c in reads:
@@ -379,7 +385,13 @@ def rule_get_content(ck):
     ck.need(chunk_vars, "get_content: variable holding the chunk read not identified")
     # budget decremented by len(chunk) before the chunk is yielded
     def is_dec(x):
-        return isinstance(x, ast.AugAssign) and isinstance(x.op, ast.Sub) and q.dotted(x.target) == rem and isinstance(x.value, ast.Call) and q.is_call(x.value, "len") and q.dotted(x.value.args[0]) in chunk_vars
+        def is_len(v):
+            return isinstance(v, ast.Call) and q.is_call(v, "len") and v.args and q.dotted(v.args[0]) in chunk_vars
+        if isinstance(x, ast.AugAssign) and isinstance(x.op, ast.Sub) and q.dotted(x.target) == rem:
+            return is_len(x.value)
+        if isinstance(x, (ast.Assign, ast.AnnAssign)) and rem in q.assigned_paths(x) and isinstance(x.value, ast.BinOp) and isinstance(x.value.op, ast.Sub) and q.dotted(x.value.left) == rem:
+            return is_len(x.value.right)   # remaining = remaining - len(chunk)
+        return False
     read_ids = {nd.id for nd, _ in reads}
     st2 = path_states(fi, ["%s is None" % rem], {"dec": lambda nd: nd.kind == "stmt" and is_dec(nd.ast)}, kills={"dec": lambda nd: nd.id in read_ids}, follow_exc=False)
     ys = fi.cfg.find(lambda x: isinstance(x, (ast.Yield, ast.YieldFrom)))
@@ -482,7 +494,9 @@ def _range_regions(ck):
             names["last"] = a.targets[0].id
     if set(names) != {"first", "last"}:
         raise AnalysisError("C27.range-model: cannot tell which conversion is the first/last byte position")
-    tail = body[ti[0] + 1:]
+    if tr.finalbody:
+        raise AnalysisError("C27.range-model: try/finally around the conversions (unknown idiom)")
+    tail = list(tr.orelse) + body[ti[0] + 1:]   # try/else: the else block runs exactly when the conversions succeeded
     return prr, tail, names
 
 
@@ -497,15 +511,24 @@ def rule_range_model(ck):
     cli = [i for i, st in enumerate(gbody) if isinstance(st, ast.Expr) and q.is_call(st.value, "self.set_header") and _hdr_is(st.value, "Content-Length")]
     if len(szi) != 1 or len(cli) != 1 or szi[0] >= cli[0]:
         raise AnalysisError("C27.range-model: range block of get() (size = ... up to the Content-Length header) not found at the top level (unknown idiom)")
-    region = gbody[szi[0]:cli[0] + 1]
+    rr_names = {a.targets[0].id for a in q.walk_body(get.node) if isinstance(a, ast.Assign) and isinstance(a.value, ast.Call) and q.call_attr(a.value) == "_parse_request_range" and isinstance(a.targets[0], ast.Name)}
+    first = szi[0]
+    for i_, st_ in enumerate(gbody[:cli[0]]):
+        if any(isinstance(x, ast.Name) and isinstance(x.ctx, ast.Store) and x.id in rr_names for x in ast.walk(st_)):
+            first = min(first, i_)   # the Range header is read/parsed before the size: evaluate from there
+    region = gbody[first:cli[0] + 1]
     rr = [a.targets[0].id for a in q.walk_body(get.node) if isinstance(a, ast.Assign) and isinstance(a.value, ast.Call) and q.call_attr(a.value) == "_parse_request_range" and isinstance(a.targets[0], ast.Name)]
     if len(set(rr)) != 1:
         raise AnalysisError("C27.range-model: parsed-range variable not identified")
     rr = rr[0]
+    from ..x_resolve import call_arg
     gcs = [c for c in q.calls(get.node) if q.dotted(c.func) == "self.get_content"]
-    if len(gcs) != 1 or len(gcs[0].args) < 3:
+    if len(gcs) != 1:
         raise AnalysisError("C27.range-model: self.get_content(path, start, end) call not found")
-    sv, evn = [q.dotted(a) for a in gcs[0].args[1:3]]
+    gparams = [p_ for p_ in ck.func(WEB, SFH + ".get_content").params() if p_ not in ("self", "cls")]
+    sv, evn = [q.dotted(call_arg(ck.repo, get, gcs[0], i_, gparams[i_])) if call_arg(ck.repo, get, gcs[0], i_, gparams[i_]) is not None else None for i_ in (1, 2)]
+    if sv is None or evn is None:
+        raise AnalysisError("C27.range-model: start/end arguments of self.get_content not recognised")
 
     POS = [None, 0, 1, 2, 3, 5, 6, 9]
     SIZES = [0, 1, 2, 3, 6]
@@ -560,17 +583,19 @@ def rule_range_model(ck):
                     continue
                 rec = {"status": 200, "hdr": {}}
 
-                def call(name, args, kwargs, node, ev2, rec=rec, size=size):
+                def call(name, args, kwargs, node, ev2, rec=rec, size=size, parsed=parsed):
                     if name == "self.get_content_size":
                         return size
+                    if name.split(".")[-1] == "_parse_request_range":
+                        return parsed
+                    if name == "self.request.headers.get":
+                        return "bytes=<spec>" if args and args[0] == "Range" else None
                     if name == "self.set_status":
                         rec["status"] = args[0]
                         return None
                     if name == "self.set_header":
                         rec["hdr"][args[0]] = args[1]
                         return None
-                    if name.split(".")[-1] == "_get_content_range":
-                        return ev2.call_function(gcr.node, args)
                     ok_, v_ = inline_call(ck.repo, get, name, args, kwargs, node, ev2)
                     if ok_:
                         return v_
